@@ -81,6 +81,7 @@ let lookup kind x =
 let l2 x = lookup 2 x
 let l10 x = lookup 10 x
 let ln x = lookup 0 x
+let p2 x = lookup 3 x
 let kind_of_base b = if b = 0x40000000 then 2 else if b = 0x41200000 then 10 else 0
 let base_value kind lnb = match kind with 2 -> 2.0 | 10 -> 10.0 | _ -> exp 1.0
 
@@ -89,6 +90,30 @@ let tab_add_matrix kind (inm : int list list) (outm : int list list) =
   List.iter2 (fun ir orow ->
       if List.length ir <> List.length orow then df "oracle-shape" else
       List.iter2 (fun i o -> tab_add kind i o) ir orow) inm outm
+
+(* kind 3 = 2f32.powf(x): 2^NaN = NaN, 2^-inf = 0, 2^+inf = +inf, otherwise within 1e-4 of
+   OCaml's double-precision 2.0 ** x (overflow -> +inf, underflow -> denormal or 0), monotone *)
+let validate_pow2 l =
+  List.iter (fun (i, o) ->
+      let x = ocaml_float i and y = ocaml_float o in
+      if Float.is_nan x then (if not (Float.is_nan y) then df "oracle 2^NaN")
+      else if x = neg_infinity then (if o <> 0 then df "oracle 2^-inf<>0")
+      else if x = infinity then (if y <> infinity then df "oracle 2^inf")
+      else begin
+        let e = 2.0 ** x in
+        let ok = if e > 3.4028235e38 then (y = infinity || y >= 3.4e38)
+          else (not (Float.is_nan y)) && Float.abs (y -. e) <= 1e-4 *. e +. 1e-44 in
+        if not ok then df (Printf.sprintf "oracle-inaccurate kind=3 in=%d out=%d" i o)
+      end) l;
+  let fin = List.filter (fun (i, _) -> not (Float.is_nan (ocaml_float i))) l in
+  let sorted = List.sort (fun (a, _) (b, _) -> compare (ocaml_float a) (ocaml_float b)) fin in
+  let rec mono = function
+    | (i1, o1) :: ((i2, o2) :: _ as r) ->
+        if ocaml_float i1 < ocaml_float i2 && ocaml_float o1 > ocaml_float o2
+        then df (Printf.sprintf "oracle-not-monotone kind=3 in=%d,%d" i1 i2);
+        mono r
+    | _ -> () in
+  mono sorted
 
 (* re-validation of the recorded assumptions on every value of the table:
    log 0 = -inf, log of a negative number / NaN is NaN, log +inf = +inf, monotone,
@@ -99,6 +124,7 @@ let validate_oracle () =
       let l = try Hashtbl.find by_kind k with Not_found -> [] in
       Hashtbl.replace by_kind k ((i, o) :: l)) tab;
   Hashtbl.iter (fun k l ->
+      if k = 3 then validate_pow2 l else begin
       let b = base_value k 0 in
       List.iter (fun (i, o) ->
           let x = ocaml_float i and y = ocaml_float o in
@@ -119,7 +145,7 @@ let validate_oracle () =
             then df (Printf.sprintf "oracle-not-monotone kind=%d in=%d,%d" k i1 i2);
             mono r
         | _ -> () in
-      mono sorted) by_kind
+      mono sorted end) by_kind
 
 (* ---------- helpers on observations ---------- *)
 let eps_freq = q_of_frac 1 100000          (* 1e-5 absolute on frequencies *)
@@ -308,6 +334,162 @@ let c09_pipe al k get geto =
   (* min / max / windows on the matrix in the requested base *)
   c09_scores al k get geto sb
 
+(* ---------- C09 kind=stat (round 3): entropy, consensus, Correlation, information content, 2^x ---------- *)
+let slack_corr = q_of_frac 1 10000
+let log2_ub k = if int_of_nat k <= 5 then (pos_of_int 233, pos_of_int 100) else (pos_of_int 440, pos_of_int 100)
+
+let scalar_cmp name (model : f32 res) (obs : string) =
+  match obs, model with
+  | "P", Panic _ -> ()
+  | "P", _ -> df (Printf.sprintf "%s panics, model does not" name)
+  | s, Ok v -> if canon (int_of_string s) <> bf v then df (Printf.sprintf "%s model=%d" name (bf v))
+  | _, _ -> df (Printf.sprintf "%s model-panics" name)
+
+let pairs_of s = List.map (fun p -> match String.split_on_char ':' p with
+    | [a; b] -> (int_of_string a, int_of_string b) | _ -> failwith "bad pair") (split ',' s)
+
+(* one matrix type: [conv] = `x as f32`; [range] = apply the [-1,1] property check *)
+let corr_stage tag conv m m2 get geto ~range =
+  let delays = ints (Option.value (get "delays") ~default:"") in
+  let pairs = pairs_of (Option.value (get "dij") ~default:"") in
+  let obs name = split ',' (Option.value (geto (tag ^ name)) ~default:"") in
+  let each name inputs f =
+    let o = obs name in
+    if List.length o <> List.length inputs then df (tag ^ name ^ "-count")
+    else List.iteri (fun idx (i, s) -> scalar_cmp (Printf.sprintf "%s%s[%d]" tag name idx) (f i) s) (List.combine inputs o) in
+  each "auto" delays (fun d -> auto_correlation ops f32_sqrt conv m (nat_of_int d));
+  each "dot" pairs (fun (i, j) -> dot ops conv m m2 (nat_of_int i) (nat_of_int j));
+  each "norm" pairs (fun (i, _) -> norm ops f32_sqrt conv m (nat_of_int i));
+  let one name = Option.value (geto (tag ^ name)) ~default:"?" in
+  let cr = one "cross" and crr = one "crossr" in
+  if cr = "?" || crr = "?" then df (tag ^ "cross-missing")
+  else begin
+    scalar_cmp (tag ^ "cross") (cross_correlation ops f32_sqrt conv m m2) cr;
+    scalar_cmp (tag ^ "crossr") (cross_correlation ops f32_sqrt conv m2 m) crr;
+    if cr = "P" || crr = "P" then pf (tag ^ "-cross_correlation-panics")
+    else if not (check_corr_sym (fb (canon (int_of_string cr))) (fb (canon (int_of_string crr))))
+    then pf (tag ^ "-cross_correlation-not-symmetric")
+  end;
+  if range then begin
+    List.iter (fun s -> if s = "P" then pf (tag ^ "-auto_correlation-panics")
+                else if not (check_corr_range slack_corr (fb (int_of_string s)))
+                then pf (tag ^ "-auto_correlation-outside-[-1,1]")) (obs "auto");
+    if cr <> "P" && cr <> "?" && not (check_corr_range slack_corr (fb (int_of_string cr)))
+    then pf (tag ^ "-cross_correlation-outside-[-1,1]")
+  end
+
+let c09_stat al k get geto =
+  let (_, str, _) = al in
+  let wrap = (geto "prof" = Some "rel") in
+  let cm = counts_stage al k get geto ~check:true in
+  let cm2 = nmat (imatrix (Option.value (get "counts2") ~default:"")) in
+  if geto "cm2" = Some "P" then (pf "unexpected-panic CountMatrix::new"; raise Stop);
+  let add_list kind ni no =
+    let i = ints (Option.value (geto ni) ~default:"") and o = ints (Option.value (geto no) ~default:"") in
+    if List.length i <> List.length o then df ("oracle-shape " ^ ni) else List.iter2 (tab_add kind) i o in
+  (* entropy, consensus *)
+  add_list 2 "ELi" "ELo";
+  let (num, den) = log2_ub k in
+  (match geto "ent", entropy ops f32_neg l2 wrap cm with
+   | Some "P", Panic _ -> ()
+   | Some "P", _ -> pf "unexpected-panic entropy"
+   | Some s, m ->
+       let o = frow (ints s) in
+       List.iter (fun e -> if not (check_entropy_range k num den slack_corr e) then pf "entropy-outside-[0,log2 K]") o;
+       (match m with
+        | Ok e -> if not (row_same e o) then df (Printf.sprintf "ent model=%s" (show_frow e))
+        | _ -> df "ent model-panics")
+   | None, _ -> df "missing-observation ent");
+  let chars = Array.of_list (List.map (fun c -> Char.chr (int_of_nat c)) str) in
+  (match geto "cons", consensus ops k f32_neg l2 wrap cm with
+   | Some "P", Panic _ -> ()
+   | Some "P", _ -> pf "unexpected-panic consensus"
+   | Some s, m ->
+       let s = if String.length s >= 3 && String.sub s 0 3 = "ok:" then String.sub s 3 (String.length s - 3)
+         else df_stop "bad-consensus-observation" in
+       let idx c = let u = Char.uppercase_ascii c in
+         let r = ref (-1) in Array.iteri (fun i x -> if Char.uppercase_ascii x = u then r := i) chars; !r in
+       let js = List.init (String.length s) (fun i -> idx s.[i]) in
+       if List.exists (fun j -> j < 0) js || not (check_consensus k cm (List.map nat_of_int js))
+       then pf "consensus-symbol-not-a-row-maximum";
+       (match m with
+        | Ok l ->
+            let ms = String.concat "" (List.map (fun (j, low) ->
+                let c = chars.(int_of_nat j) in
+                String.make 1 (if low then Char.lowercase_ascii c else Char.uppercase_ascii c)) l) in
+            if ms <> s then df (Printf.sprintf "cons model=%s" ms)
+        | _ -> df "cons model-panics")
+   | None, _ -> df "missing-observation cons");
+  corr_stage "c" conv_N cm cm2 get geto ~range:true;
+  (* frequencies *)
+  let pseudo = pseudo_of k (Option.get (get "ps")) in
+  if geto "fq" = Some "P" then (pf "unexpected-panic to_freq"; raise Stop);
+  let fq = get_fm geto "fq" and fq2 = get_fm geto "fq2" in
+  same_fm "fq" (to_freq ops pseudo cm) fq;
+  same_fm "fq2" (to_freq ops pseudo cm2) fq2;
+  let unit_cells m = List.for_all (List.for_all (fun x ->
+      let v = ocaml_float (bf x) in (not (Float.is_nan v)) && v >= 0.0 && v <= 1.0)) m in
+  corr_stage "f" conv_id fq fq2 get geto ~range:(unit_cells fq && unit_cells fq2);
+  (* weights, WeightMatrix::information_content *)
+  let mbg = (match res_of_bg_spec k (Option.get (get "bg")) with Ok b -> b | _ -> df_stop "stat-background-rejected") in
+  if geto "bg" = Some "Err" then df_stop "background-rejected-model-accepts";
+  let wm = get_fm geto "wm" and wm2 = get_fm geto "wm2" in
+  let wbg = frow (ints (Option.get (geto "wbg"))) in
+  if not (row_same mbg wbg) then df_stop "background-values";
+  same_fm "wm" (to_weight ops wbg fq) wm;
+  same_fm "wm2" (to_weight ops wbg fq2) wm2;
+  add_list 2 "WLi" "WLo";
+  tab_add_matrix 2 (imatrix (Option.get (geto "wm"))) (imatrix (Option.get (geto "L2")));
+  tab_add_matrix 2 (imatrix (Option.get (geto "wm2"))) (imatrix (Option.get (geto "L22")));
+  tab_add_matrix 3 (imatrix (Option.get (geto "sm"))) (imatrix (Option.get (geto "P2")));
+  (match get "sm", geto "rP2" with
+   | Some r, Some o -> tab_add_matrix 3 (imatrix r) (imatrix o)
+   | _, _ -> ());
+  validate_oracle ();
+  scalar_cmp "wic" (Ok (weight_information_content ops l2 wbg wm)) (Option.value (geto "wic") ~default:"P");
+  corr_stage "w" conv_id wm wm2 get geto ~range:false;
+  (* scores, ScoringMatrix::information_content, From<ScoringMatrix> for WeightMatrix *)
+  let sm = get_fm geto "sm" and sm2 = get_fm geto "sm2" in
+  same_fm "sm" (to_scoring ops l2 l10 ln wm) sm;
+  same_fm "sm2" (to_scoring ops l2 l10 ln wm2) sm2;
+  scalar_cmp "sic" (Ok (scoring_information_content ops p2 wbg sm)) (Option.value (geto "sic") ~default:"P");
+  corr_stage "s" conv_id sm sm2 get geto ~range:false;
+  (match geto "w2" with
+   | Some "P" -> pf "unexpected-panic WeightMatrix::from(ScoringMatrix)"
+   | Some s ->
+       let w2 = fmat (imatrix s) in
+       (* 2^(log2 w) = w up to the libm error: relative 1e-4 (normal numbers), for the cells
+          whose weight is finite and not negative (log2 of a negative weight is NaN) *)
+       if List.length w2 <> List.length wm then pf "pow2-of-score-shape"
+       else List.iter2 (fun r2 r ->
+           if List.length r2 <> List.length r then pf "pow2-of-score-shape"
+           else List.iter2 (fun x2 x ->
+               let v = ocaml_float (bf x) in
+               if (not (Float.is_nan v)) && v >= 0.0 && v < infinity
+               && not (f32_close tiny (q_of_frac 1 10000) x2 x) then pf "pow2-of-score-not-the-weight") r2 r) w2 wm;
+       if not (fm_same (weight_of_scoring p2 sm) w2) then df "w2 model";
+       (match geto "w2bg" with
+        | Some b -> if not (row_same wbg (frow (ints b))) then pf "WeightMatrix::from(ScoringMatrix)-changed-background"
+        | None -> df "missing-observation w2bg")
+   | None -> df "missing-observation w2");
+  (* arbitrary scoring data *)
+  (match get "sm" with
+   | Some r ->
+       let raw = fmat (imatrix r) in
+       scalar_cmp "rsic" (Ok (scoring_information_content ops p2 wbg raw)) (Option.value (geto "rsic") ~default:"P");
+       (match geto "rw2" with
+        | Some "P" -> pf "unexpected-panic WeightMatrix::from(raw)"
+        | Some s -> if not (fm_same (weight_of_scoring p2 raw) (fmat (imatrix s))) then df "rw2 model"
+        | None -> df "missing-observation rw2");
+       corr_stage "r" conv_id raw sm get geto ~range:false
+   | None -> ());
+  (* discrete matrices: the u8 instantiation on the observed cells *)
+  (match geto "dd", geto "dd2" with
+   | Some "P", _ -> ()
+   | Some d, Some d2 -> corr_stage "d" conv_N (nmat (imatrix d)) (nmat (imatrix d2)) get geto ~range:true
+   | _, _ -> df "missing-observation dd");
+  if !oracle_miss then df "oracle-miss"
+
 let bg_result geto =
   match geto "r" with
   | Some "P" -> `P
@@ -345,6 +527,7 @@ let c09_case line_in obs_s =
   else match Option.get (get "k") with
     | "pipe" -> c09_pipe al k get geto
     | "raw" -> c09_scores al k get geto (fmat (imatrix (Option.get (get "sm"))))
+    | "stat" -> c09_stat al k get geto
     | "bgnew" ->
         let v = frow (ints (Option.get (get "v"))) in
         let obs = bg_result geto in
